@@ -168,6 +168,8 @@ class Recorder(object):
     # -- counting
     def case(self, case, nontrivial, classes=(), key=None):
         self.evaluations += 1
+        if self.evaluations % 250 == 0 and self._jf is not None:
+            self.flush()          # journaled (crash-prone) shards: keep the counts if the child is killed
         for c in classes:
             self.classes[c] = self.classes.get(c, 0) + 1
         if nontrivial:
